@@ -349,7 +349,7 @@ func cmdCheck(o opts, prop, tier string) int {
 	qdir := filepath.Join(o.out, "work", prop)
 	os.RemoveAll(qdir)
 	solveAll(sel, qdir, timeout, tier == "thorough", 5)
-	return report(o, e, prop, tier, seed, sel, frames, engineErrs, time.Since(t0).Seconds(), timeout)
+	return report(o, e, prop, tier, seed, sel, append(frames, supportFrames...), engineErrs, time.Since(t0).Seconds(), timeout)
 }
 
 // cmdSweep: developer view of the C20 sweep - safety obligations of the named functions (or of every function under
